@@ -419,7 +419,9 @@ class FunctionDefinition:
 
         assert inspect.isfunction(fn)
 
-        parsed = parse_source(inspect.getsource(fn))
+        # use the code object, inspect.getsource(fn) would follow fn.__wrapped__
+        # and return the source of the function decorated with functools.wraps
+        parsed = parse_source(inspect.getsource(fn.__code__))
 
         if fn.__name__ == "<lambda>":
             lambda_nodes: list[ast.Lambda] = []
